@@ -75,6 +75,10 @@ def make_wiki(cfg):
         pages["Rd2"] = [(32, "#REDIRECT [[Rd3]]")]
         pages["Rd3"] = [(33, "#REDIRECT [[Rd2]]")]
         articles += [("Rd", None), ("Alpha", None)]
+    elif red == "pinned-retargeted":
+        # the book pins an old revision of a redirect page; the page points somewhere else today
+        pages["Rd"] = [(30, "#REDIRECT [[Alpha]]"), (31, "#REDIRECT [[Beta]]")]
+        articles.append(("Rd", 30))
     elif red == "dead":
         pages["Rd"] = [(31, "#REDIRECT [[Nowhere]]")]
         articles += [("Rd", None), ("Alpha", None)]
@@ -100,7 +104,7 @@ class Configs(Space):
             for img in ("none", "direct", "deep", "shared"):
                 if img == "deep" and tdepth == 0:
                     continue
-                for red in ("none", "single", "chain", "self", "cycle", "into-cycle", "dead"):
+                for red in ("none", "single", "chain", "self", "cycle", "into-cycle", "pinned-retargeted", "dead"):
                     for revs in ("single", "two", "pinned-old", "both", "both-reversed", "two-pins"):
                         if revs not in ("single", "two") and red != "none":
                             continue
@@ -295,11 +299,20 @@ def judge(cfg, run):
     needed_images = set()
     for (title, rev) in articles:
         final, red = wiki.resolve(title)
+        pinned_redirect = False
+        if rev and title in wiki.pages:
+            from mc.gen.synthwiki import REDIRECT
+            m = REDIRECT.match(dict(wiki.pages[title]["revs"]).get(rev) or "")
+            if m:  # the pinned revision is a redirect: its own target counts, not where the page points today
+                tgt = m.group(1).strip()
+                final, more = wiki.resolve(tgt)
+                red = [{"from": title, "to": tgt}] + more
+                pinned_redirect = True
         dead = final not in wiki.pages or wiki.redirect_target(final) is not None
         if title not in wiki.pages or dead:
             key.append((title, "skipped"))
             continue  # missing page / dead or circular redirect: nothing demanded but that the rest is intact
-        want_raw = dict(wiki.pages[final]["revs"]).get(rev) if rev else wiki.current(final)[1]
+        want_raw = dict(wiki.pages[final]["revs"]).get(rev) if rev and not pinned_redirect else wiki.current(final)[1]
         want_exp = wiki.expand(want_raw)
         p = w.get_page(title, rev) if rev else w.normalize_and_get_page(title, 0)
         got = getattr(p, "rawtext", None)
